@@ -95,10 +95,31 @@ def _check_runtime_types(node: ASTNode, type_map: Mapping[Field, FieldTypeInfo])
     return incorrect_fields
 
 
+def _stable_repr(val: Any) -> str:
+    """Same as repr(), but independent of the iteration order of sets."""
+    if isinstance(val, (set, frozenset)):
+        if not val:
+            return repr(val)
+
+        items = ", ".join(sorted(_stable_repr(v) for v in val))
+        return f"{{{items}}}" if type(val) is set else f"{type(val).__name__}({{{items}}})"
+
+    if type(val) is tuple:
+        items = ", ".join(_stable_repr(v) for v in val)
+        return f"({items},)" if len(val) == 1 else f"({items})"
+
+    return repr(val)
+
+
 def _encode_value(val: Any) -> str:
     """Encode a property value for the id digests so that it can't be confused with
-    the surrounding field separators."""
-    val_str = str(val).replace("\\", "\\\\").replace(")", "\\)")
+    the surrounding field separators and does not depend on set iteration order."""
+    if isinstance(val, (set, frozenset, tuple)):
+        val_str = _stable_repr(val)
+    else:
+        val_str = str(val)
+
+    val_str = val_str.replace("\\", "\\\\").replace(")", "\\)")
     return f"{type(val)}({val_str})"
 
 
